@@ -35,7 +35,8 @@ META = {
         "repository's own test corpus (a seed-dependent slice in quick, all eligible ones in thorough)."),
     'level_note': ('Programs are generated from a fixed block grammar (loops, GOSUB, ON ERROR/RESUME, strings, arrays, DATA, '
                    'DEF FN, RND, sequential and random files, text and graphics output); INPUT, sound and time-dependent '
-                   'statements are not generated; corpus programs that read the clock, poll the keyboard, SHELL or use ENVIRON are '
+                   'statements are not generated; corpus programs that read the clock, poll the keyboard, SHELL, list FILES (host free space) or use ENVIRON, and one that '
+                   'writes one host file through two file numbers at once (flush order), are '
                    'skipped and counted. Interruption inside a statement (during wait()) is not explored.'),
     'rule': ('case = (program, boundary k); distinct by program text and k; non-trivial = the interruption hit while the '
              'program was running (not after its end) and the resumed session produced a final observation'),
@@ -252,7 +253,15 @@ _INI_OK = {'font', 'run', 'quit', 'soft-linefeed', 'video', 'syntax', 'video-mem
            'text-width', 'monitor'}
 # what would make the two runs differ for reasons outside the property: wall-clock readings (the resumed
 # process has its own clock), keyboard polling, other processes
-_SKIP_WORDS = (b'TIMER', b'TIME$', b'DATE$', b'RANDOMIZE', b'INKEY$', b'SHELL', b'ENVIRON', b'IOCTL')
+_SKIP_WORDS = (b'TIMER', b'TIME$', b'DATE$', b'RANDOMIZE', b'INKEY$', b'SHELL', b'ENVIRON', b'IOCTL',
+               # FILES prints the free space of the host disk, which changes between the two runs
+               b'FILES')
+# programs whose result depends on when buffers are flushed to the host file, which a suspension changes by design
+_SKIP_PROGRAMS = {
+    # the same host file is written through an OUTPUT and a RANDOM file number at the same time; its own comment says
+    # "which write prevails depends on close sequencing": suspending flushes file 1 earlier than the uninterrupted run
+    'unsorted/LockFilesOutput': 'one host file written through two file numbers; outcome depends on buffer flush order',
+}
 
 
 def corpus_entry(rel):
@@ -319,7 +328,7 @@ def _reference(lines, budget):
             # the listing is taken in a session of its own: it must not be on the reference run's screen
             listing = box.ex(b'LIST').upper()
             box.close()
-            if any(w in listing for w in _SKIP_WORDS):
+            if any(w in listing for w in _SKIP_WORDS) or lines['corpus'] in _SKIP_PROGRAMS:
                 return None, 0, 'skip'
             shutil.rmtree(root, ignore_errors=True)
             box = _start(root, lines)
